@@ -48,6 +48,9 @@ func (cc *checkCtx) runStandin() *standinResult {
 	cmd.Dir = cc.s.repo
 	caseFile := filepath.Join(cc.s.smt.dir, "standin-case.txt")
 	cmd.Env = append(os.Environ(), "GOVC_CASEFILE="+caseFile, "GOFLAGS=-mod=mod", "GOPROXY=off", "GOSUMDB=off", "GOTOOLCHAIN=local", "GOVC_STANDIN="+cc.prop, "GOVC_SEED="+strconv.Itoa(cc.seed))
+	if cc.tier == "thorough" {
+		cmd.Env = append(cmd.Env, "GOVC_STANDIN_DEEP=1")
+	}
 	var buf bytes.Buffer
 	cmd.Stdout = &buf
 	cmd.Stderr = &buf
